@@ -660,6 +660,13 @@ type PathFact struct {
 	Val  bool
 	v    ssa.Value // the (phi-resolved) condition value; identity decides contradictions
 	gen  int       // how often the block defining v had been entered when the fact was recorded
+	ops  []opGen   // for comparisons of stable operands: the operands and their generations
+}
+
+// opGen is one operand of a comparison with the generation of its defining block.
+type opGen struct {
+	v   ssa.Value
+	gen int
 }
 
 // PathRender renders a value in the context of the current path.
@@ -843,6 +850,21 @@ func (pe *pathEnum) walk(b *ssa.BasicBlock, pred *ssa.BasicBlock, env map[*ssa.P
 		if neg {
 			cneg = !cneg
 		}
+		// a comparison of two literals (after phi resolution on this path) is decided
+		if m := litCmpRx.FindStringSubmatch(canon); m != nil {
+			truth := m[1] == m[2]
+			g := 0
+			if ci, ok := cond.(ssa.Instruction); ok && ci.Block() != nil {
+				g = seen[ci.Block()]
+			}
+			nf := append(append([]PathFact{}, facts...), PathFact{Cond: canon, Val: truth, v: cond, gen: g})
+			if truth != cneg {
+				pe.walk(b.Succs[0], b, env, cells, nf, trace, seen)
+			} else {
+				pe.walk(b.Succs[1], b, env, cells, nf, trace, seen)
+			}
+			return
+		}
 		// generation of the condition value: a value is re-evaluated each time
 		// its defining block is re-entered (loops), so an earlier fact about it
 		// is only binding within the same generation
@@ -850,12 +872,18 @@ func (pe *pathEnum) walk(b *ssa.BasicBlock, pred *ssa.BasicBlock, env map[*ssa.P
 		if ci, ok := cond.(ssa.Instruction); ok && ci.Block() != nil {
 			gen = seen[ci.Block()]
 		}
+		ops := pe.p.stableOperands(cond, seen)
 		for i, sb := range b.Succs {
 			val := (i == 0) != cneg
 			contra := false
 			for _, f := range facts {
 				if f.v == cond && f.gen == gen && f.Val != val {
 					contra = true // the same evaluation cannot be both true and false on one path
+				}
+				// two comparisons (no CSE in go/ssa) of the same immutable operands in the
+				// same generation have the same value
+				if ops != nil && f.ops != nil && f.Cond == canon && f.Val != val && sameOps(ops, f.ops) {
+					contra = true
 				}
 			}
 			if contra {
@@ -869,7 +897,7 @@ func (pe *pathEnum) walk(b *ssa.BasicBlock, pred *ssa.BasicBlock, env map[*ssa.P
 				}
 				nf = append(nf, f)
 			}
-			nf = append(nf, PathFact{canon, val, cond, gen})
+			nf = append(nf, PathFact{canon, val, cond, gen, ops})
 			pe.walk(sb, b, env, cells, nf, trace, seen)
 		}
 	default:
@@ -902,4 +930,97 @@ func (p *Prog) IndexStoreOn(re string) IM {
 		ia, ok := st.Addr.(*ssa.IndexAddr)
 		return ok && rx.MatchString(p.Render(ia.X))
 	}
+}
+
+var litCmpRx = regexp.MustCompile(`^\(("(?:[^"\\]|\\.)*"|-?\d+) == ("(?:[^"\\]|\\.)*"|-?\d+)\)$`)
+
+func sameOps(a, b []opGen) bool {
+	if len(a) != len(b) {
+		return false
+	}
+	for i := range a {
+		if a[i].gen != b[i].gen {
+			return false
+		}
+		ca, okA := a[i].v.(*ssa.Const)
+		cb, okB := b[i].v.(*ssa.Const)
+		if okA && okB {
+			if ca.String() != cb.String() {
+				return false
+			}
+			continue
+		}
+		if a[i].v != b[i].v {
+			return false
+		}
+	}
+	return true
+}
+
+// stableOperands returns the operands of an ==/!=/< comparison when both are
+// immutable within a generation: SSA registers (calls, extracts, parameters,
+// constants) or loads of package-level variables that are never stored to
+// outside their package initialiser (sentinel errors). nil otherwise.
+func (p *Prog) stableOperands(cond ssa.Value, seen map[*ssa.BasicBlock]int) []opGen {
+	b, ok := cond.(*ssa.BinOp)
+	if !ok {
+		return nil
+	}
+	var out []opGen
+	for _, o := range []ssa.Value{b.X, b.Y} {
+		for {
+			if mi, ok := o.(*ssa.MakeInterface); ok {
+				o = mi.X
+				continue
+			}
+			if cv, ok := o.(*ssa.ChangeInterface); ok {
+				o = cv.X
+				continue
+			}
+			break
+		}
+		switch x := o.(type) {
+		case *ssa.Const, *ssa.Parameter:
+			out = append(out, opGen{o, 0})
+		case *ssa.Call, *ssa.Extract, *ssa.Phi:
+			g := 0
+			if in, ok := o.(ssa.Instruction); ok && in.Block() != nil {
+				g = seen[in.Block()]
+			}
+			out = append(out, opGen{o, g})
+		case *ssa.UnOp:
+			gl, ok := x.X.(*ssa.Global)
+			if !ok || x.Op != token.MUL || !p.globalIsConstant(gl) {
+				return nil
+			}
+			out = append(out, opGen{gl, 0})
+		default:
+			return nil
+		}
+	}
+	return out
+}
+
+// globalIsConstant: the package-level variable is stored to only by its package's init.
+func (p *Prog) globalIsConstant(g *ssa.Global) bool {
+	if p.constGlobals == nil {
+		p.constGlobals = map[*ssa.Global]bool{}
+		written := map[*ssa.Global]bool{}
+		for _, fn := range p.AllFuncs() {
+			if fn.Name() == "init" && fn.Parent() == nil {
+				continue
+			}
+			for _, b := range fn.Blocks {
+				for _, in := range b.Instrs {
+					if st, ok := in.(*ssa.Store); ok {
+						if gg, ok := st.Addr.(*ssa.Global); ok {
+							written[gg] = true
+						}
+					}
+				}
+			}
+		}
+		p.writtenGlobals = written
+	}
+	return !p.writtenGlobals[g]
 }
